@@ -1,7 +1,8 @@
 """C17  Library queues are FIFOs with their advertised same-cycle behaviour.
 
-spec/Fifo.tla (one action per clock cycle, parameterised by kind and capacity), spec/FifoTrace.tla
-(trace validation), harness/c17_duts.py (one legal driver per interface style).
+spec/Fifo.tla (one action per clock cycle, parameterised by kind and capacity), spec/FifoChain.tla (two
+one-entry bypass queues in series = enrdy BypassQueue2RTL), spec/FifoTrace.tla (trace validation against
+either), harness/c17_duts.py (one legal driver per interface style).
   1. TLC checks Fifo.tla exhaustively for every kind x capacity (|Msgs| = 3): occupancy bound,
      delivered is a prefix of accepted, accepted = delivered o q, ready/valid exactly per kind,
      count arithmetic, per-step FIFO order; once with the histories hidden by a VIEW (whole
@@ -24,7 +25,8 @@ spec/Fifo.tla (one action per clock cycle, parameterised by kind and capacity), 
      chain model from the advertised kind -- computed from the two TLC state graphs, exactly one
      state -- are reported once under `kind-rule:<class>:<clause>-with-<stage occupancy>`.
 
-NOTE: Trusted base: TLC, Fifo.tla as the statement of the kind rules, the adapters of
+NOTE: Trusted base: TLC, Fifo.tla as the statement of the kind rules (FifoChain.tla is only a model of one
+class: it is never a licence -- its deviations from Fifo.tla are computed and reported), the adapters of
 c17_duts.py (legal en/rdy, val/rdy and CL method drivers; the intra-cycle order is left to the
 queue). Reset is only exercised on classes whose state has a reset term; occupancy of classes
 without a count port is read from their full bits / deque (white box). valrdy_queues.py cannot be
